@@ -312,6 +312,23 @@ func c06Run(r *core.Run) {
 					r.Failf("C06.record-content", k, "audit record says %s=%q, the request used %q: %s", k, got, v, desc)
 				}
 			}
+			// the digest "actually used" is the one in the signature that went out,
+			// not the one the request asked for: read it off the returned
+			// signature (X.509 types whose signature names its digest)
+			if !c.PGP && c.Mod != "jar" {
+				if sig, _, verr := c.verify(rq.CType, rq.Body, nil); verr == nil && sig != nil && sig.Hash != 0 {
+					used := ""
+					for _, d := range digestChoices {
+						if d.Hash == sig.Hash {
+							used = d.Name
+						}
+					}
+					if got, _ := rec["sig.hash"].(string); used != "" && got != used {
+						r.Failf("C06.record-content", "sig.hash/used", "audit record says sig.hash=%q, the signature that was returned uses %s (requested: %q): %s", got, used, c.Digest, desc)
+					}
+					r.Probe("digest-read-off-the-returned-signature")
+				}
+			}
 			// 2. written before the response
 			if rq.RecordAtFirstByte != "complete" {
 				r.Failf("C06.record-after-response", rq.RecordAtFirstByte, "when the first response byte was written the audit record was %s: %s", rq.RecordAtFirstByte, desc)
